@@ -383,3 +383,23 @@ def _check_linprog(prog, rep, fi, call):
                    loc=f"{fi.module.rel}:{n.lineno}", detail=f"status-code:{st}")
     if n_opt == 0:
         raise AnalysisError(f"{fname}: no OPTIMAL site")
+    # bounds handed to linprog must be the CURRENT declared bounds: Variable.lb/ub are public and mutable, a cached
+    # copy can be stale, and HiGHS then certifies a point that violates the bounds the user sees
+    assigns = local_assignments(fi.node)
+    kws = {}
+    star = [k.value for k in call.keywords if k.arg is None]
+    for k in call.keywords:
+        if k.arg:
+            kws[k.arg] = k.value
+    if star and isinstance(star[0], ast.Name):
+        for n in walk_local(fi.node):
+            if isinstance(n, ast.Assign) and isinstance(n.targets[0], ast.Subscript) and src(n.targets[0].value) == star[0].id and isinstance(n.targets[0].slice, ast.Constant):
+                kws[n.targets[0].slice.value] = n.value
+    b = kws.get("bounds")
+    if b is not None:
+        origin = [b] + ([v for v in assigns.get(b.id, []) if isinstance(v, ast.AST)] if isinstance(b, ast.Name) else [])
+        cached = [o for o in origin if isinstance(o, ast.Attribute) and isinstance(o.value, ast.Name) and any(isinstance(v, ast.AST) and "_lp_cache" in src(v) for v in assigns.get(o.value.id, []))]
+        rep.ob("R06.3", f"{fname}:linprog(bounds=)", not cached,
+               "bounds handed to linprog are read from the variables on every solve" if not cached else
+               f"bounds handed to linprog come from the cached LP data ({src(cached[0])}): after a bound was changed HiGHS optimises over the old box and the point reported OPTIMAL can violate the current bounds",
+               loc=f"{fi.module.rel}:{call.lineno}", detail="bounds-current")
